@@ -1,6 +1,7 @@
 package props
 
 import (
+	"gbverif/cmpchain"
 	"strings"
 	"golang.org/x/tools/go/ssa"
 	"fmt"
@@ -232,6 +233,22 @@ func init() {
 					}
 				}
 				fmt.Printf("%s.%s: %d implementers, not allocated on decode side: %s\n", short, name, len(impl), joinShort(missing, 40))
+			}
+		}
+	}
+}
+
+func init() {
+	debugHooks["cmp"] = func(p *ir.Program) {
+		for _, fn := range p.FuncsIn("internal/pkg/table") {
+			if fn.Parent() != nil || !strings.HasPrefix(fn.Name(), "compareBy") {
+				continue
+			}
+			ev := &cmpchain.Eval{}
+			outs := ev.Run(fn, "X", "Y")
+			fmt.Println("==", fn.Name(), len(outs), "rows", ev.Problems)
+			for _, o := range outs {
+				fmt.Println("   ", o)
 			}
 		}
 	}
